@@ -103,7 +103,8 @@ type Conv struct {
 
 type Settings struct {
 	Interval string `json:"executionMinInterval"`
-	Burst    int    `json:"executionBurst"`
+	// Burst: nil leaves executionBurst out of the document
+	Burst *int `json:"executionBurst,omitempty"`
 }
 
 // D is a hook configuration description.
